@@ -174,13 +174,18 @@ def xfer_traces(ctx, profiles, n_quick, n_thorough, shards=None, extra_env=None)
     return files
 
 
-def tlc_behaviours(ctx, module, cfg, num, depth, seed=None, workers=8, timeout=600, cap=None):
-    """Generate behaviours with `tlc -simulate`; the model prints <<"BEHAVIOUR", json>> at depth.
+def tlc_behaviours(ctx, module, cfg, num, depth, seed=None, workers=8, timeout=600, cap=None, bfs=False, expect_violation=None):
+    """Generate behaviours with `tlc -simulate` (or breadth-first when bfs: the cfg's constraint prints and cuts at
+    its depth); the model prints <<"BEHAVIOUR", json>>. expect_violation names an invariant of a NEGATIVE CONTROL
+    configuration that TLC must find violated (its counterexample history is the behaviour).
     Returns (path of a file with one JSON array per line, count)."""
     per = max(1, num // workers)
-    r = L.run_tlc(ctx.scr, module, cfg, workers=workers, timeout=timeout, heap="4g",
-                  extra=["-simulate", "num=%d" % per, "-depth", str(depth), "-seed", str(seed if seed is not None else ctx.seed)])
-    if r["timeout"] or "Error:" in r["out"]:
+    extra = [] if (bfs or expect_violation) else ["-simulate", "num=%d" % per, "-depth", str(depth), "-seed", str(seed if seed is not None else ctx.seed)]
+    r = L.run_tlc(ctx.scr, module, cfg, workers=workers, timeout=timeout, heap="4g", extra=extra)
+    if expect_violation:
+        if expect_violation not in r["invariant_violated"]:
+            raise L.MachineryError("negative control %s/%s: invariant %s was expected to be violated\n%s" % (module, cfg, expect_violation, r["out"][-1500:]))
+    elif r["timeout"] or "Error:" in r["out"]:
         raise L.MachineryError("behaviour generation %s/%s failed:\n%s" % (module, cfg, "\n".join(r["out"].splitlines()[-30:])))
     path = os.path.join(r["wd"], "behaviours.jsonl")
     seen = set()
@@ -202,7 +207,7 @@ def tlc_behaviours(ctx, module, cfg, num, depth, seed=None, workers=8, timeout=6
     with open(path, "w") as f:
         for js in allb:
             f.write(js + "\n")
-    ctx.design.append({"module": module, "cfg": cfg, "mode": "simulate", "distinct": 0, "generated": r["generated"], "behaviours": len(seen),
+    ctx.design.append({"module": module, "cfg": cfg, "mode": "negative-control" if expect_violation else ("bfs-export" if bfs else "simulate"), "distinct": 0, "generated": r["generated"], "behaviours": len(seen),
                        "wall_s": r["wall_s"], "ok": True, "cmd": r["cmd"]})
     if not seen:
         raise L.MachineryError("no behaviours produced by %s/%s" % (module, cfg))
@@ -532,9 +537,44 @@ def c08(ctx):
     ctx.validate(files)
 
 
+def reconfig_family(ctx):
+    """Reconfig.tla engine slice (stream reset protocol for one identifier incl. re-opening, lost/re-ordered RE-CONFIG
+    packets, reconfig timer): exhaustive TLC on the model of the code as fixed, negative controls for the two defects
+    it found (F21, F22), and TLC behaviours (breadth-first export + the negative controls' counterexamples) replayed
+    content-keyed on real associations; the recorded traces are judged by ObsTrace."""
+    binp = ctx.harness()
+    ctx.tlc_design("Reconfig", "MC_Reconfig_fixed.cfg" if ctx.quick else "MC_Reconfig_fixed3.cfg", timeout=3000, heap="12g")
+    paths = []
+    for cfg, inv in (("MC_Reconfig_pinned_f21.cfg", "EofOnlyAfterCloseP"), ("MC_Reconfig_pinned_f22.cfg", "NoMidStreamRenumberingP")):
+        paths.append(tlc_behaviours(ctx, "Reconfig", cfg, 1, 1, workers=1, expect_violation=inv)[0])
+    for d, cap in ((11, 240), (13, 360)) if ctx.quick else ((11, None), (13, None), (15, 6000)):
+        paths.append(tlc_behaviours(ctx, "Reconfig", "MC_Reconfig_emit%d.cfg" % d, 1, d, workers=4, bfs=True, cap=cap, timeout=1200)[0])
+    allb = os.path.join(ctx.scr.mkdir("rr"), "behaviours.jsonl")
+    with open(allb, "w") as f:
+        for p in paths:
+            f.write(open(p).read())
+    nb = sum(1 for _ in open(allb))
+    out = ctx.scr.mkdir("rr")
+    nsh = 8 if ctx.quick else 16
+    ps = L.run_shards(binp, "reco-replay", out, nsh, {"VF_IN": allb, "VF_NSHARDS": nsh})
+    for p in ps:
+        if p.returncode != 0:
+            raise L.MachineryError("reco-replay failed: " + (p.stdout + p.stderr)[-2000:])
+    drift = sum(json.load(open(f))["drift"] for f in glob.glob(os.path.join(out, "rr-*.json")))
+    ctx.replayed += nb
+    ctx.distinct.add(("reconfig-schedules",))
+    ctx.notes.append("Reconfig.tla behaviours replayed: %d, of which the real code could not follow %d (drift, not a verdict)" % (nb, drift))
+    if drift * 5 > nb:
+        raise L.MachineryError("more than 20%% of the Reconfig behaviours drifted (%d of %d): model and code disagree on the protocol" % (drift, nb))
+    if len(ctx.samples) < 4:
+        ctx.samples.append({"reconfig_schedule": open(allb).readline()[:500]})
+    return sorted(glob.glob(os.path.join(out, "rr-*.ndjson")))
+
+
 @check("C14", ["C14_"])
 def c14(ctx):
-    files = directed_traces(ctx, "reconfig", 12 if ctx.quick else 16, {"VF_FULL": "0" if ctx.quick else "1"})
+    files = reconfig_family(ctx)
+    files += directed_traces(ctx, "reconfig", 12 if ctx.quick else 16, {"VF_FULL": "0" if ctx.quick else "1"})
     ctx.notes.append("reconfig: 1-3 streams closing at once x 0/1/3 queued messages x two close/reopen cycles x every single (quick: + sampled pairs; "
                      "thorough: all pairs) loss/duplication decision over (kind, sender, ordinal<=3) of DATA/SACK/RECONFIG")
     ctx.validate(files)
@@ -652,6 +692,7 @@ def c03(ctx):
                      "'all byte strings' is sampled, not enumerated (DESIGN section 6)")
 
 
+EXTRA["C14"] = ["C02_Delivered", "C01_ReadNext", "C06_Genuine", "C06_AtMostOnce", "C06_OrderedSubseq"]   # "normal delivery" of a re-opened identifier
 EXTRA["C03"] = ["C01_", "C02_Delivered", "C06_Genuine", "C06_AtMostOnce", "C17_WrongKindAbort"]
 
 
